@@ -155,3 +155,9 @@ mod tests {
         );
     }
 }
+
+/// Re-exports of the private RLP helpers for verification harnesses.
+#[cfg(feature = "verif-hooks")]
+pub mod verif_hooks {
+    pub use super::rlp::{bytes, len, list, uint};
+}
